@@ -12,6 +12,7 @@ import math
 from hypothesis import strategies as st
 
 from vlib import gen_maps, gen_unit, pipeline, xmap_text
+from vlib import scale
 from vlib.core import Sub, req, sut
 
 PROPERTY = "C18"
@@ -146,4 +147,7 @@ def subchecks(tier):
             required_classes=("rows=0", "rows=1")),
         Sub("many-records", "hyp", check_unit, strategy=many_records_strategy, examples=48 if q else 800, shrink_budget=6,
             describe="999-4097 records in one file (rows of a unit-level alignment repeated): entry ids 1,2,3,..., read back in order"),
+        Sub("huge-reference", "hyp", check_pipeline, strategy=scale.huge_reference_case, examples=1 if q else 16, shrink_budget=0, skip_first=True,
+            shards=1 if q else 16, sample_filter=scale.short, time_budget_s=3000,
+            describe="files written for a reference of 33 000-36 000 labels: label numbers above 32 767 read back"),
     ]
